@@ -585,7 +585,7 @@ class Sym:
             for k in keys:
                 vals = [getattr(s, attr).get(k) for s, _c in states]
                 present = [v for v in vals if v is not None]
-                if all(v == present[0] for v in present) and (len(present) == len(vals) or isinstance(present[0], CollState) or attr == "vars"):
+                if all(v == present[0] for v in present) and (len(present) == len(vals) or isinstance(present[0], CollState) or attr == "vars" or k.startswith("#")):
                     tgt[k] = present[0]
                     continue
                 if isinstance(present[0], CollState):
